@@ -150,7 +150,7 @@ def partitions(tier, seed):
                           two_pre,
                           'def body(k0, k1, a, b):\n'
                           '    return enc_all_orders([(k0, a), (k1, [b, "s"])], %s)\n' % wrap,
-                          PRE, 280 if q else 900, family='order_independence',
+                          PRE, 280 if q else 480, family='order_independence',
                           bound='2 distinct keys (%s), both insertion orders, %s'
                                 % ('1 code point <= U+07FF' if q else '<= 2 code points', wname),
                           rep={'k0': 'b', 'k1': 'a', 'a': -5, 'b': True}))
@@ -169,7 +169,7 @@ def partitions(tier, seed):
                                                                         '%s < %s' % (order[1], order[2])],
                               'def body(k0, k1, k2, a, b):\n'
                               '    return enc_all_orders([(k0, a), (k1, b), (k2, None)], %s)\n' % wrap,
-                              PRE, 280 if q else 900, family='order_independence',
+                              PRE, 280 if q else 480, family='order_independence',
                               bound='3 distinct keys with %s, all 6 insertion orders, %s' % (' < '.join(order), wname),
                               rep={order[0]: 'a', order[1]: 'b', order[2]: 'c', 'a': 1, 'b': 100}))
     parts.append(Part('long_keys', [('a', 'int'), ('b', 'int')], ['-2**31 <= a < 2**31', '-2**31 <= b < 2**31'],
